@@ -51,6 +51,8 @@ def add_requests(sc, ws, kinds):
             sc.req("hints", p, 0, len(lines) + 1)
         for ln in sorted(pf.hot):
             line = lines[ln - 1] if ln - 1 < len(lines) else ""
+            if "completion" in kinds:
+                sc.req("completion", p, ln - 1, 0)
             for c in range(0, len(line) + 1, 2):
                 for k in ("definition", "impl", "hover", "prepare", "references"):
                     if k in kinds:
@@ -177,12 +179,12 @@ def c05_wire(run, tier):
     v = run.verdict
     sessions = build_sessions(run.rng, 10 if tier == "quick" else 60)
     for sc, ws in sessions:
-        add_requests(sc, ws, {"definition", "impl", "hover", "prepare", "outgoing", "hints"})
+        add_requests(sc, ws, {"definition", "impl", "hover", "prepare", "outgoing", "hints", "completion"})
     res, mcases, msp = stdio.run_all(run, [s for s, _ in sessions], tag="wire", workers=8,
                                      extra={sc.name: [("avail", p) for p in ws.files] for sc, ws in sessions})
     bad = correspond(run, res)
     by = index_answers(res)
-    npos = nout = nhint = 0
+    npos = nout = nhint = ncomp = 0
     for sc, ws in sessions:
         flags = flags_by_file_name(msp, mcases, sc.name)
         defs_with_yield = set()
@@ -288,7 +290,32 @@ def c05_wire(run, tier):
                     hty = (md.group(2) or "").strip() if md else None
                     if hty != ty:
                         report(p, l, cc, mname.group(1), f"the inlay hint annotates the parameter with `{ty}` but hover shows the fixture returning `{hty}`")
+        # the completion entry for a name describes the definition hover describes at a usage of it in the same file
+        docs_by_file = {}
+        for key, (a, m, k) in by.items():
+            if key[0] == sc.name and key[1] == "completion" and a not in ("none", "[]"):
+                for it in parse_list(a):
+                    f = it.split("|")
+                    if len(f) >= 7:
+                        docs_by_file.setdefault(key[2], {}).setdefault(f[0], set()).add(f[6])
+        for key, (a, m, k) in by.items():
+            if key[0] != sc.name or key[1] != "hover" or a == "none":
+                continue
+            _, _, p, l, c = key
+            md = HOVER_DEF.search(unhex(a))
+            if not md:
+                continue
+            name = md.group(1)
+            lines = ws.files[p].text().split("\n")
+            if re.search(r"def\s+%s\s*\(" % re.escape(name), lines[l] if l < len(lines) else ""):
+                continue                      # a self-named parameter: hover shows the overridden fixture
+            for doc in docs_by_file.get(p, {}).get(name, ()):
+                ncomp += 1
+                if doc != a:
+                    report(p, l, c, name, f"hover describes {unhex(a)[:90]!r} but the completion entry for {name} offered in the same file "
+                                          f"documents {unhex(doc)[:90]!r}")
     run.stats["positions_compared_definition_hover_implementation_prepare"] = npos
+    run.stats["completion_entries_compared_with_hover"] = ncomp
     run.stats["outgoing_calls_compared_with_definition"] = nout
     run.stats["inlay_hints_compared_with_hover"] = nhint
     return res
